@@ -74,6 +74,16 @@ CHECKS = {
          "Model checking of callback ordering plus conformance of the real affected-flag and callbacks; a violation is a missed invalidation, a spurious one at the stated boundary, a wrong callback count/order, a callback before the index commit, or a changed served result without reset/query event.",
          "Query-change Events() of badgerstore reports only the reset flag (no event lists); the client-side replay of query events is covered by C15/C10 machinery, here only 'told whenever the result differs' is judged end to end.",
          "4.3 C14"),
+ "C18": ("wire", "model_checking",
+         "TLA+ wire specification (ResWire.tla: abstract JSON, Classify into primitive/reference/soft reference/data/delete/invalid, SameValue, Wrapped): TLC model-checks totality, the equivalence properties of SameValue and the protocol clauses over every pair of objects of the bound (MCWire); JSON texts of abstract values (systematic small objects over the protocol's member names, random deeper values; random whitespace and key order) are classified and compared by the real store.Value, round-tripped through Ref/SoftRef and MarshalDataValue/UnmarshalDataValue, and responses of a real service for every handler outcome are parsed with resprot; every observation is a record judged by TLC (TraceWire.tla)",
+         "Bounded-exhaustive model checking of classification/equality plus conformance of the real codecs; a violation is a real classification, equality verdict, round trip or parsed envelope that deviates from the reference.",
+         "Strings and numbers are atoms for TLC: the every-UTF-8-string clause is exercised through a pool plus random strings and compared with encoding/json (exploration-level part); ambiguous member combinations (rid with data, wrongly typed soft/rid/action) are invalid, following the implementation.",
+         "4.4 C18"),
+ "C19": ("sendreq", "model_checking",
+         "TLA+ SendRequest specification (ResSendReq.tla: discrete-time fold of an inbox script - silences, timeout pre-responses, malformed pre-responses, responses - into outcome, return time and reported extensions; failures of marshal/subscribe/publish): TLC model-checks FirstReal/TimeoutLater/FailFast/ExtensionsReported for every script of the bound (MCSendReq); real resprot.SendRequest calls over an embedded nats-server with a responder playing every short script and random longer ones on a coarse, staggered time grid, and with failing connection operations; outcome, extensions, promptness and the connection's subscription count before/after are records judged by TLC (TraceSendReq.tla)",
+         "Exhaustive model checking of the deadline logic plus conformance of real timed executions; a violation is a real call that returns another class than the reference, reports other extensions, waits on a failure, or leaves its inbox subscription on the connection.",
+         "Coarse ticks (60 ms) with deliveries staggered between ticks so that none coincides with a deadline; runs whose duration is off by more than a tick are discarded, never judged.",
+         "4.4 C19"),
  "C20": ("legacy", "model_checking",
          "TLA+ fold specification of the legacy middleware (ResLegacy.tla: LStep per event = applicability, effect on the stored value, whether it is published, listener old values; LFirstBad folds an observed history) on top of the reference client ResClient.tla: TLC model-checks every event sequence of the bound (MCLegacy: a client applying the published events holds what is served); random event histories from With callbacks on 10 configurations of both packages on a real BadgerDB are recorded per event (published?, listener payload, get response, Value()) and after close/reopen, and judged by TLC (TraceLegacy.tla)",
          "Model checking of the fold semantics plus conformance of real event histories; a violation is a real event whose publication, listener payload, served value or Value() deviates from the fold, or a served value that differs after reopening the database.",
